@@ -583,6 +583,14 @@ fn classify(af: &AFont, spec: &BTreeSet<u32>, orig: &FontRef, subf: Option<&Font
             if msg.contains("Error reading cmap table") {
                 return Some("C17:cmap-dropped-unsupported-encoding-records");
             }
+            if msg.contains("attempt to add with overflow") && msg.contains("klippa/src/cmap.rs") {
+                return Some("C17:cmap12-empty-subtable-invalid-group");
+            }
+            if let Some(sf) = subf {
+                if has(orig, b"COLR") && !has(sf, b"COLR") {
+                    return Some("C17:colr-dropped");
+                }
+            }
         }
     }
     None
@@ -675,6 +683,10 @@ fn oracle(cx: &OracleCtx, req: &Req, res: &Result<Vec<u8>, String>, st: &mut Sta
                 }
                 let po = draw(&orig, g, *size, &lo);
                 let ps = draw(&subf, ng, *size, &ls);
+                if po.is_err() {
+                    st.count("oracle.original_outline_unreadable");
+                    continue; // nothing to preserve: the original glyph cannot be drawn (cycle, dangling component, depth)
+                }
                 if po != ps {
                     first_fail = Some((Kind::Outline, json!({"glyph": g, "new": ng, "why": "unhinted outline differs", "orig": format!("{:?}", po.as_ref().map(|r| r.0.len())), "subset": format!("{:?}", ps.as_ref().map(|r| r.0.len())), "size": si, "loc": li})));
                     break 'outer;
